@@ -105,11 +105,23 @@ fn c20_network(r: &mut Rng) -> String {
             r.pick(&["^", "*^", "^*", "|^", "^|", "*", "||^", "^^", "*^*", "||*", "|*", "*|", "||", "|", "$", "^a", "a^"]),
             r.pick(&["", "", "$image", "$third-party", "$domain=a.com", "$script,domain=~a.com"])
         ),
-        11 => (r.pick(&[
+        11 if r.chance(1, 2) => (r.pick(&[
             "ads/é", "||müller.de^", "||\u{200d}.com^", "||пример.рф/ads", "é", "||ÉXAMPLE.com^", "ads$tag=é",
             "||Example.COM/Ads", "|HTTPS://Example.com/", "ADS", "||www.Example.com^", "||x.com/é$image",
         ]))
         .to_string(),
+        // a pattern with a non-ASCII character under every kind of option list (one type, several
+        // types, types that are exported as separate rules, party options, domains)
+        11 => format!(
+            "{}{}${}",
+            if r.chance(1, 5) { "@@" } else { "" },
+            r.pick(&["ads/é", "/réclame-", "||x.com/é", "é*ads", "||müller.de/bü", "|https://x.com/ü|", "ü"]),
+            r.pick(&[
+                "image", "script,subdocument", "script,subdocument,stylesheet", "subdocument", "document", "document,subdocument",
+                "image,subdocument,third-party", "frame,script", "xhr,font,media,css", "~image", "~subdocument", "1p", "3p,script,subdocument",
+                "domain=a.com", "script,subdocument,domain=a.com|b.com", "important,subdocument,image", "websocket,subdocument",
+            ])
+        ),
         12 => format!(
             "{}{}${}",
             if r.chance(1, 3) { "@@" } else { "" },
